@@ -281,6 +281,28 @@ class Check(Property):
                 v.append(f"{tag} from_tuple(to_tuple(q)) = {q2!r}, q = {q!r}")
         except Exception as exc:  # noqa: BLE001
             v.append(f"{tag} to_tuple/from_tuple raised {type(exc).__name__}: {exc}")
+        # fractional exponents in the registry's own numeric type survive the tuple form (value and type), in the float,
+        # Fraction and Decimal registries
+        try:
+          for src2 in (regs.ureg("float"), regs.ureg("fraction"), regs.ureg("decimal")):
+            T = src2.non_int_type
+            for e in ((T("0.1"), T(1) / T(3)) if T is not float else (0.5, 0.1)):
+                if not all(src._units[k].is_multiplicative for k in q._units):
+                    break
+                qf = src2.Quantity(T(2), src2.Unit(src2.UnitsContainer({k: (T(str(x)) if not isinstance(x, int) else x) for k, x in q._units.items()}))) ** e
+                q3 = src2.Quantity.from_tuple(qf.to_tuple())
+                t1 = {k: (type(x).__name__, x) for k, x in qf._units.items()}
+                t2 = {k: (type(x).__name__, x) for k, x in q3._units.items()}
+                if t1 != t2:
+                    v.append(f"{tag} ** {e!r}: from_tuple(to_tuple()) has the exponents {t2}, the quantity had {t1}")
+                else:
+                    try:
+                        if not self.eq(q3, qf):
+                            v.append(f"{tag} ** {e!r}: from_tuple(to_tuple()) = {q3!r} is not equal to {qf!r}")
+                    except Exception as exc:  # noqa: BLE001
+                        v.append(f"{tag} ** {e!r}: comparing the rebuilt quantity raised {type(exc).__name__}: {exc}")
+        except Exception as exc:  # noqa: BLE001
+            v.append(f"{tag} fractional-exponent tuple round trip raised {type(exc).__name__}: {exc}")
         return v
 
     def oracle_exceptions(self):
